@@ -89,9 +89,31 @@ pub fn check_pair(c: &PairCase) -> CheckResult {
     let mut b = c.b.build();
     let mut recent: Vec<u64> = Vec::new();
     let different = c.a != c.b;
+    // public read position of the buffered generators, derived from the calls made so far: the
+    // text must be the same whenever the position is the same, also at different times
+    let info = c.a.ty().info();
+    let block = info.block;
+    let wb = (info.word / 8) as usize;
+    let (mut consumed, mut pending, mut position_known) = (0usize, false, true);
+    let mut by_position: std::collections::HashMap<(usize, bool), (String, String, usize)> = std::collections::HashMap::new();
+    let mut revisits = 0usize;
     for k in 0..=c.ops.len() {
         let (da, db) = (a.debug(), b.debug());
         let (pa, pb) = (a.debug_alt(), b.debug_alt());
+        if position_known {
+            let key = if block == 0 { (0, false) } else { (if consumed == 0 { block } else { (consumed - 1) % block + 1 }, pending) };
+            match by_position.get(&key) {
+                Some((d0, p0, k0)) => {
+                    revisits += 1;
+                    if *d0 != da || *p0 != pa {
+                        return Err(Fail::new(format!("C17:depends-on-history:{}", name), format!("Debug text differs between two moments with the same public read position (after {} and after {} ops): it depends on internal state", k0, k)).exp_act(if *d0 != da { d0.clone() } else { p0.clone() }, if *d0 != da { da.clone() } else { pa.clone() }));
+                    }
+                }
+                None => {
+                    by_position.insert(key, (da.clone(), pa.clone(), k));
+                }
+            }
+        }
         if da != db || pa != pb {
             return Err(Fail::new(format!("C17:depends-on-seed:{}", name), format!("Debug text differs between two generators with different seeds and the same history (after {} ops)", k)).exp_act(da, db));
         }
@@ -102,6 +124,30 @@ pub fn check_pair(c: &PairCase) -> CheckResult {
             }
         }
         if k < c.ops.len() {
+            match &c.ops[k] {
+                Op::U32 if info.word == 64 && block > 0 => {
+                    if pending {
+                        pending = false;
+                    } else {
+                        consumed += 1;
+                        pending = true;
+                    }
+                }
+                Op::U32 => consumed += 1,
+                Op::U64 => {
+                    consumed += if info.word == 32 { 2 } else { 1 };
+                    pending = false;
+                }
+                Op::Fill(n) => {
+                    if *n == 0 && pending {
+                        // the statement is silent on whether a zero-length fill keeps the half
+                        position_known = false;
+                    }
+                    consumed += (*n + wb - 1) / wb;
+                    pending = false;
+                }
+                _ => {}
+            }
             if let Some(v) = apply(&mut *a, &c.ops[k]) {
                 match v {
                     Val::U32(x) => recent.push(x as u64),
@@ -124,7 +170,11 @@ pub fn check_pair(c: &PairCase) -> CheckResult {
             apply(&mut *b, &c.ops[k]);
         }
     }
-    Ok(CaseInfo::new(different && !c.ops.is_empty()).class(name).class_if(c.ops.last() == Some(&Op::U32), "ends-on-u32"))
+    Ok(CaseInfo::new(different && !c.ops.is_empty())
+        .class(name)
+        .class_if(c.ops.last() == Some(&Op::U32), "ends-on-u32")
+        .class_if(revisits > 0, "position-revisited")
+        .class_if(block > 0 && consumed > 64 * block.min(16), "beyond-64-blocks"))
 }
 
 pub fn check_core(c: &CoreCase) -> CheckResult {
@@ -138,9 +188,15 @@ pub fn check_core(c: &CoreCase) -> CheckResult {
             let mut b = <$Core>::from_seed(sb);
             let mut ra = <$Core as BlockRngCore>::Results::default();
             let mut rb = <$Core as BlockRngCore>::Results::default();
+            let first = (format!("{:?}", a), format!("{:#?}", a));
             for k in 0..=c.blocks {
-                let (da, db) = (format!("{:?}", a), format!("{:?}", b));
+                let (da, db) = (format!("{:?}", a), format!("{:#?}", a).len());
+                let _ = db;
+                let (da, db) = (da, format!("{:?}", b));
                 let (pa, pb) = (format!("{:#?}", a), format!("{:#?}", b));
+                if (da.clone(), pa.clone()) != first {
+                    return Err(Fail::new(format!("C17:depends-on-history:{}", $name), format!("Debug text of the core changes over time (after {} blocks): a core has no public read position, the text depends on internal state", k)).exp_act(&first.1, &pa));
+                }
                 if da != db || pa != pb {
                     return Err(Fail::new(format!("C17:depends-on-seed:{}", $name), format!("Debug text of the core differs between seeds (after {} blocks)", k)).exp_act(da, db));
                 }
@@ -168,7 +224,7 @@ pub fn def(ctx: &Ctx) -> PropDef {
     let mut subs: Vec<Box<dyn SubCheck>> = Vec::new();
     for ty in [Ty::XorShift, Ty::Hc128, Ty::Isaac, Ty::Isaac64, Ty::Jitter] {
         let info = ty.info();
-        let (n, big) = if ty == Ty::Jitter { (8, 40) } else { (14, 1200) };
+        let (n, big) = if ty == Ty::Jitter { (8, 40) } else { (14, 6000) };
         subs.push(PSub::boxed(
             format!("pairs/{}", ty.name()),
             t.pick(if ty == Ty::Jitter { 1200 } else { 3000 }, 200_000),
@@ -189,12 +245,12 @@ pub fn def(ctx: &Ctx) -> PropDef {
     subs.push(PSub::boxed(
         "cores",
         t.pick(4000, 300_000),
-        || (0u8..3, gens::seed_for(Ty::Isaac, true), gens::seed_for(Ty::Isaac, true), 0usize..=4).prop_map(|(which, a, b, blocks)| CoreCase { which, a, b, blocks }).boxed(),
+        || (0u8..3, gens::seed_for(Ty::Isaac, true), gens::seed_for(Ty::Isaac, true), prop_oneof![3 => 0usize..=4, 1 => 60usize..=140]).prop_map(|(which, a, b, blocks)| CoreCase { which, a, b, blocks }).boxed(),
         check_core,
     ));
     PropDef {
         id: "C17",
-        rule: "cases = pairs of generators of the same state-hiding type (XorShiftRng, Hc128Rng, IsaacRng, Isaac64Rng, scripted JitterRng; cores Hc128Core, IsaacCore, Isaac64Core) built from two generated seeds / timers and driven by the same generated history; after every operation {:?} and {:#?} of the two must be byte-identical (same history => same public read position), and no decimal or hex token of the text may equal a state word, an upcoming buffered word or one of the last outputs if that word is >= 2^20 (small numbers legitimately appear as index / result_len). The text itself is not pinned. Non-trivial = the two seeds differ and >= 1 operation was applied; distinct by hash of the case.".into(),
+        rule: "cases = pairs of generators of the same state-hiding type (XorShiftRng, Hc128Rng, IsaacRng, Isaac64Rng, scripted JitterRng; cores Hc128Core, IsaacCore, Isaac64Core) built from two generated seeds / timers and driven by the same generated history; after every operation {:?} and {:#?} of the two must be byte-identical (same history => same public read position), the text must also be identical between two moments of one history at which the public read position (derived from the calls made) is the same, and constant over time for the cores, XorShiftRng and JitterRng (histories reach beyond 64 blocks / 1024 words of HC-128), and no decimal or hex token of the text may equal a state word, an upcoming buffered word or one of the last outputs if that word is >= 2^20 (small numbers legitimately appear as index / result_len). The text itself is not pinned. Non-trivial = the two seeds differ and >= 1 operation was applied; distinct by hash of the case.".into(),
         explanation: None,
         assumptions: vec!["buffered words are observed as the upcoming outputs of a clone; XorShiftRng state through its validated serde image".into()],
         subs,
